@@ -34,8 +34,8 @@ def gen_cases(tier, seed):
     kinds = ["p2wpkh", "p2wsh", "p2sh-p2wpkh", "p2sh-p2wsh"]
     for i in range(96 if q else 1500):
         yield "e2e_send", {"kind": kinds[i % 4], "signed": True, "salt": rng.getrandbits(48), "net": ["mainnet", "testnet", "regtest"][i % 3],
-                           "n_utxo": rng.choice([1, 1, 2, 3]), "vout_mode": rng.choice(["zero", "index", "random"]),
-                           "amount_mode": rng.choice(["plain", "hostile", "hostile", "huge"]), "fraction": rng.choice([1.0, 1.0, 0.5]),
+                           "n_utxo": rng.choice([1, 2, 2, 3]), "vout_mode": rng.choice(["zero", "index", "random"]),
+                           "amount_mode": rng.choice(["plain", "hostile", "hostile", "huge", "with_zero", "with_zero"]), "fraction": rng.choice([1.0, 1.0, 0.5]),
                            "fee": rng.choice([1000, 0, 999]), "version": rng.choice([1, 2]), "locktime": rng.choice([0, 5]),
                            "flag": rng.choice(FLAGS), "recipient": rng.choice(["p2pkh", "segwit0"]), "change": "default",
                            "m_n": rng.choice([[1, 1], [1, 2], [2, 2], [2, 3]])}
